@@ -812,11 +812,10 @@ theorem itemsP_good (env : List Entry) (largs eargs : List (List HTok)) (mb : Li
 /-- **`subst` on a replacement list with `##`**: the result spells the paste normal form of the replacement list as
 the model substituted it; every token of it is a token of the replacement list (hide set = the new hide set) or names
 no enabled macro -/
-theorem subst_paste (ex : List HTok → Except SErr (List HTok)) (env' : List Entry) (m : Macro) (np : Nat)
+theorem subst_paste (env' : List Entry) (m : Macro) (np : Nat)
     (hparams : (ofMacro m).params.getD [] = paramNames np) (largs eargs : List (List HTok))
     (args' : List (List PTok)) (hsNew : List String) (body' : List PTok) (ks : List Tok)
     (hbody : BodyOK np m.body)
-    (hex : ∀ i, i < np → ∃ ea, eargs[i]? = some ea ∧ ex (largs.getD i []) = .ok ea)
     (hne : ∀ i, i ∈ pasteParams none m.body → (largs.getD i []).isEmpty = false)
     (hsub : substitute m.body args' = .ok body')
     (hncargs : ∀ (i : Nat) (a' : List PTok), args'[i]? = some a' → NoConcat a')
@@ -825,12 +824,16 @@ theorem subst_paste (ex : List HTok → Except SErr (List HTok)) (env' : List En
     (hgl : ∀ i, i ∈ pasteParams none m.body → ∀ s ∈ largs.getD i [], GoodItem env' (.tok s))
     (hge : ∀ a ∈ eargs, ∀ s ∈ a, GoodItem env' (.tok s))
     (hpn : PN env' body' ks) :
-    ∃ out : List HTok, subst ex (ofMacro m) largs hsNew = .ok (out.map (fun s => ⟨s.tok, s.hide ++ hsNew⟩)) ∧
+    ∃ out : List HTok,
+      (∀ ex : List HTok → Except SErr (List HTok),
+        (∀ i, i < np → ∃ ea, eargs[i]? = some ea ∧ ex (largs.getD i []) = .ok ea) →
+        subst ex (ofMacro m) largs hsNew = .ok (out.map (fun s => ⟨s.tok, s.hide ++ hsNew⟩))) ∧
       out.map (·.tok) = ks ∧ ∀ s ∈ out, GoodItem env' (.tok s) := by
-  have hrp := replaceParams_paste ex np largs eargs hex m.body none hbody (by simp) hne
   have hal := itemsP_al largs eargs args' m.body none body' hsub hncargs hexp hraw
   obtain ⟨out, hdp, hks, hgood⟩ := doPastes_pn hpn _ hal (itemsP_good env' largs eargs m.body hge none hgl) []
   refine ⟨out, ?_, hks, hgood⟩
+  intro ex hex
+  have hrp := replaceParams_paste ex np largs eargs hex m.body none hbody (by simp) hne
   unfold subst
   rw [hparams]
   have hb : (ofMacro m).body = (ppTokens m.body).map specBodyTok := rfl
@@ -840,7 +843,6 @@ theorem subst_paste (ex : List HTok → Except SErr (List HTok)) (env' : List En
   simp only
   rw [hdp]
   simp [List.filterMap_map, Function.comp_def]
-
 
 /-! ## splitting the paste normal form at an argument list -/
 
@@ -934,6 +936,39 @@ theorem pn_head_lparen {env : List Entry} {l : List PTok} {ks : List Tok} (h : P
     simp only [firstTok, hmw, Bool.false_eq_true, if_false, Option.some.injEq] at this
     rcases hx with hx | hx | hx <;> rw [hx] at this <;> cases this
 
+
+
+/-! ## inversion of the paste normal form -/
+
+theorem pn_inv_nil {env : List Entry} {ks : List Tok} (h : PN env [] ks) : ks = [] := by
+  cases h; rfl
+
+theorem pn_inv_ws {env : List Entry} {t : PTok} {rest : List PTok} {ks : List Tok} (h : PN env (t :: rest) ks)
+    (hw : t.tok.isWhitespace = true) : PN env rest ks := by
+  cases h with
+  | ws _ _ _ _ h' => exact h'
+  | tok _ _ _ hnw _ _ _ => rw [hw] at hnw; cases hnw
+  | paste _ _ _ _ _ _ hnw _ _ _ _ => rw [hw] at hnw; cases hnw
+
+theorem pn_inv_tok {env : List Entry} {t : PTok} {rest : List PTok} {ks : List Tok} (h : PN env (t :: rest) ks)
+    (hw : t.tok.isWhitespace = false) (hs : splitPaste rest = none) :
+    ∃ ks', ks = t.tok :: ks' ∧ PN env rest ks' := by
+  cases h with
+  | ws _ _ _ hw2 _ => rw [hw] at hw2; cases hw2
+  | tok _ _ ks' _ _ _ h' => exact ⟨ks', rfl, h'⟩
+  | paste _ _ _ _ _ _ _ hs2 _ _ _ => rw [hs] at hs2; cases hs2
+
+theorem pn_inv_paste {env : List Entry} {t1 t2 : PTok} {rest rest2 : List PTok} {ks : List Tok}
+    (h : PN env (t1 :: rest) ks) (hw : t1.tok.isWhitespace = false) (hs : splitPaste rest = some (t2, rest2)) :
+    ∃ m, pasteTokens t1 t2 = .ok m ∧ PN env (m :: rest2) ks := by
+  cases h with
+  | ws _ _ _ hw2 _ => rw [hw] at hw2; cases hw2
+  | tok _ _ _ _ _ hs2 _ => rw [hs] at hs2; cases hs2
+  | paste _ t2' m _ rest2' _ _ hs2 hp _ h' =>
+    rw [hs] at hs2
+    simp only [Option.some.injEq, Prod.mk.injEq] at hs2
+    obtain ⟨rfl, rfl⟩ := hs2
+    exact ⟨m, hp, h'⟩
 
 /-! ## pieces of the `invoke` case -/
 
@@ -1059,6 +1094,161 @@ theorem relP_body {env : List Entry} {n : String} {mi : Nat} {e : Entry} (hsel :
       obtain ⟨e', he', hname, hen'⟩ := hen
       have := h k hk e' he' hname
       rw [this] at hen'; cases hen'
+
+
+theorem goodItem_of_onlyDisabled {env : List Entry} {mi : Nat} (a' : List PTok) (ea : List HTok)
+    (hod : OnlyDisabled env a') (htok : ea.map (·.tok) = ppTokens a') :
+    ∀ s ∈ ea, GoodItem (disable env mi) (.tok s) := by
+  intro s hs
+  right
+  intro k hk e' he' hname
+  have hmem : Tok.id k ∈ ppTokens a' := by
+    rw [← htok, ← hk]; exact List.mem_map.mpr ⟨s, hs, rfl⟩
+  obtain ⟨pt, hpt, hptk⟩ := mem_ppTokens hmem
+  obtain ⟨e0, he0, hm, himp⟩ := mem_disable he'
+  exact himp (hod pt hpt k hptk e0 he0 (by rw [← hm]; exact hname))
+
+/-- **A tame derivation with `##` is what the reference algorithm computes.** -/
+theorem tameP_spec {env : List Entry} {l out : List PTok} (h : TameP env l out) :
+    (∀ e ∈ env, WFMacroP e.m) → ∀ ls, RelP env ls l → ∃ r, SExp (specTable env) ls r ∧ RelOut env r out := by
+  induction h with
+  | nil env =>
+    intro _ ls hrel
+    have : ls = [] := by simpa using pn_inv_nil hrel.toks
+    subst this
+    exact ⟨[], SExp.nil, ⟨rfl, by simp⟩⟩
+  | keep env t rest out hk hsp _ ih =>
+    intro hwf ls hrel
+    by_cases hw : t.tok.isWhitespace = true
+    · obtain ⟨r, hs, hro⟩ := ih hwf ls ⟨pn_inv_ws hrel.toks hw, hrel.sup, hrel.sub⟩
+      exact ⟨r, hs, ⟨by rw [ppTokens_cons_ws t out hw]; exact hro.toks, hro.sup⟩⟩
+    · have hw' : t.tok.isWhitespace = false := by simpa using hw
+      have hspn : splitPaste rest = none := by
+        rcases hsp with h1 | h1
+        · exact absurd h1 hw
+        · exact h1
+      obtain ⟨ks', hks, hpn'⟩ := pn_inv_tok hrel.toks hw' hspn
+      cases ls with
+      | nil => simp at hks
+      | cons ts ls' =>
+        simp only [List.map_cons, List.cons.injEq] at hks
+        obtain ⟨hts, hks'⟩ := hks
+        rw [← hks'] at hpn'
+        have hrel' : RelP env ls' rest :=
+          ⟨hpn', fun x hx => hrel.sup x (by simp [hx]), fun x hx => hrel.sub x (by simp [hx])⟩
+        obtain ⟨r, hs, hro⟩ := ih hwf ls' hrel'
+        have hkeep : KeepS (specTable env) ts ls' := by
+          intro n hn
+          have htn : t.tok = .id n := by rw [← hts]; exact hn
+          cases hfind : find (specTable env) n with
+          | none => exact Or.inr (Or.inl rfl)
+          | some m =>
+            obtain ⟨e, he, hm, hname⟩ := find_specTable_some hfind
+            rcases hk.2 n htn e he hname with hd | ⟨hf, hsp'⟩
+            · left
+              have : n ∈ ts.hide := hrel.sup ts (by simp) n (mem_disabledNames.mpr ⟨e, he, hd, hname⟩)
+              simpa using this
+            · right; right
+              refine ⟨m, paramNames e.m.numParams, rfl, by rw [hm]; simp [ofMacro, hf, paramNames], ?_⟩
+              intro hh rest'' heq
+              have : startsParen rest = true := by
+                unfold startsParen
+                rw [pn_head_lparen hpn' (rest''.map (·.tok)) (by rw [heq]; rfl)]
+                rfl
+              rw [hsp'] at this; cases this
+        refine ⟨ts :: r, SExp.keep ts ls' r hkeep hs, ⟨?_, ?_⟩⟩
+        · rw [ppTokens_cons t out hw', List.map_cons, hts, hro.toks]
+        · intro x hx
+          rcases List.mem_cons.mp hx with rfl | hx
+          · exact hrel.sup _ (by simp)
+          · exact hro.sup x hx
+  | paste env t1 t2 m rest rest2 out hnw hs _ hp _ _ ih =>
+    intro hwf ls hrel
+    obtain ⟨m', hp', hpn⟩ := pn_inv_paste hrel.toks hnw hs
+    rw [hp] at hp'
+    cases hp'
+    exact ih hwf ls ⟨hpn, hrel.sup, hrel.sub⟩
+  | invoke env n b rest mi e rest' args args' body' R out hsel hra hncargs hpaok hlen hargs hod hsub hbody hnf hrest
+      ihargs ihbody ihrest =>
+    intro hwf ls hrel
+    have hwfe : WFMacroP e.m := hwf e (List.mem_of_getElem? hsel.get)
+    -- the text behind the name does not continue a paste
+    have hfirst : firstTok rest ≠ some .concat := by
+      cases hfn : e.m.isFunction with
+      | false =>
+        have hs := readArgs_spec e.m rest rest' args hra
+        simp only [hfn, Bool.false_eq_true, if_false] at hs
+        rw [← hs.1]; exact tameP_firstTok hrest
+      | true =>
+        obtain ⟨bb, tail, htrim, _, _⟩ := readArgs_fn e.m rest rest' args hfn hra
+        have := startsParen_of_trimStart rest bb tail htrim
+        unfold startsParen at this
+        intro hh
+        rw [hh] at this
+        cases this
+    have hspn : splitPaste rest = none := splitPaste_none_of_firstTok rest hfirst
+    obtain ⟨ks', hks, hpn'⟩ := pn_inv_tok hrel.toks (by rfl) hspn
+    cases ls with
+    | nil => simp at hks
+    | cons ts ls' =>
+      simp only [List.map_cons, List.cons.injEq] at hks
+      obtain ⟨hts, hks'⟩ := hks
+      rw [← hks'] at hpn'
+      have hen : ∃ e' ∈ env, e'.m.name = n ∧ e'.disabled = false :=
+        ⟨e, List.mem_of_getElem? hsel.get, hsel.name, hsel.enabled⟩
+      have htsub : ∀ x ∈ ts.hide, x ∈ disabledNames env := hrel.sub ts (by simp) n hts hen
+      have htsup : ∀ x ∈ disabledNames env, x ∈ ts.hide := hrel.sup ts (by simp)
+      have hnp := not_painted hsel ts htsub
+      have hfind := find_specTable_selects hsel
+      obtain ⟨ksb, hpnb⟩ := tameP_pn hbody
+      have hncargs' : ∀ (i : Nat) (a' : List PTok), args'[i]? = some a' → NoConcat a' := by
+        intro i a' ha'
+        have hi : i < args.length := by rw [← hlen]; exact (List.getElem?_eq_some_iff.mp ha').1
+        exact tameP_out_noConcat (hargs i _ a' (List.getElem?_eq_getElem hi) ha')
+      cases hfn : e.m.isFunction with
+      | false =>
+        -- object-like
+        have hs := readArgs_spec e.m rest rest' args hra
+        simp only [hfn, Bool.false_eq_true, if_false] at hs
+        obtain ⟨hr, ha⟩ := hs
+        subst hr; subst ha
+        have ha' : args' = [] := by simpa using hlen
+        subst ha'
+        have hnoarg : ∀ t ∈ e.m.body, ∀ i, t.tok ≠ .arg i := by
+          intro t ht i hi
+          have := (hwfe.argRange t ht i hi).2
+          rw [hfn] at this; cases this
+        have hpp : ∀ i, i ∈ pasteParams none e.m.body → False := by
+          intro i hi
+          obtain ⟨t, ht, htk⟩ := mem_pasteParams_arg _ _ _ hi
+          exact hnoarg t ht i htk
+        obtain ⟨outb, hsubst, hksb, hgood⟩ := subst_paste (disable env mi) e.m 0
+          (by simp [ofMacro, hfn, paramNames]) [] [] [] (n :: ts.hide) body' ksb
+          ⟨hwfe.noHash, hwfe.noParamName, fun t ht i hi => absurd hi (hnoarg t ht i)⟩
+          (fun i hi => (hpp i hi).elim) hsub (fun i a' h => by simp at h)
+          (fun t ht i hi => absurd hi (hnoarg t ht i)) (fun i hi => (hpp i hi).elim)
+          (fun i hi => (hpp i hi).elim) (fun a ha => by cases ha) hpnb
+        have hrelb := relP_body hsel (n :: ts.hide) outb body'
+          (by
+            rintro x (rfl | hx)
+            · simp
+            · exact List.mem_cons_of_mem _ (htsup x hx))
+          (by
+            intro x hx
+            rcases List.mem_cons.mp hx with rfl | hx
+            · exact Or.inl rfl
+            · exact Or.inr (htsub x hx))
+          (by rw [hksb]; exact hpnb) hgood
+        obtain ⟨Rs, hsR, hroR⟩ := ihbody (wfP_disable hwf) _ hrelb
+        rw [specTable_disable] at hsR
+        have hrel' : RelP env ls' rest' :=
+          ⟨hpn', fun x hx => hrel.sup x (by simp [hx]), fun x hx => hrel.sub x (by simp [hx])⟩
+        obtain ⟨r2, hs2, hro2⟩ := ihrest hwf ls' hrel'
+        obtain ⟨h1, h2⟩ := invoke_tailP hsel _ Rs R rest' out ls' r2 hsR hroR hnf hs2 hro2 hpn'
+        refine ⟨Rs ++ r2, ?_, h2⟩
+        exact SExp.obj ts n (ofMacro e.m) ls' _ _ hts hnp hfind (by simp [ofMacro, hfn])
+          (fun ex => hsubst ex (fun i hi => by omega)) h1
+      | true => sorry
 
 
 end RsslVerif.Lemmas.MacroTamePSpec
